@@ -785,6 +785,10 @@ func (ex *Exec) VerifyFunc(sp *FuncSpec) {
 	for _, l := range sp.Locals {
 		env.setGhostGlobal(l.Name, env.eval(l.Init))
 	}
+	// termination measure of the function itself (checked at calls into its recursion group)
+	for _, d := range sp.Decreases {
+		fr.Measure = append(fr.Measure, ex.evalInt(env, d))
+	}
 	for _, gs := range sp.EntrySets {
 		var vals []TV
 		for _, e := range gs.Exprs {
